@@ -23,6 +23,9 @@ func (e c12Ev) String() string {
 	if e.Kind == "req" {
 		return fmt.Sprintf("req(c%d,t%d)", e.K, e.T)
 	}
+	if e.Kind == "tick" {
+		return fmt.Sprintf("tick(%ds)", e.Code)
+	}
 	return fmt.Sprintf("ans(c%d,t%d,%d)", e.K, e.T, e.Code)
 }
 
@@ -30,14 +33,18 @@ type c12Flavor struct {
 	Received string `json:"received"` // on | off
 	SentBy   string `json:"sentby"`   // same | different | table-name | unknown-name | true-port
 	RPort    bool   `json:"rport"`
-	Backend  string `json:"backend"`          // udp | tcp
-	Branch   string `json:"branch,omitempty"` // "" pairwise unrelated | prefix: every branch is a proper prefix of the next one
+	Backend  string `json:"backend"`                  // udp | tcp
+	Branch   string `json:"branch,omitempty"`         // "" pairwise unrelated | prefix: every branch is a proper prefix of the next one
+	DT       int    `json:"dialog_timeout,omitempty"` // dialogTimeout of the service in seconds (0 = not configured)
 }
 
 func (f c12Flavor) String() string {
 	s := fmt.Sprintf("received=%s,sentby=%s,rport=%v,backend=%s", f.Received, f.SentBy, f.RPort, f.Backend)
 	if f.Branch != "" {
 		s += ",branch=" + f.Branch
+	}
+	if f.DT != 0 {
+		s += fmt.Sprintf(",dialogTimeout=%d", f.DT)
 	}
 	return s
 }
@@ -54,6 +61,7 @@ func c12Exec(fl c12Flavor, nconn int, hist []c12Ev) (string, string, string) {
 	if fl.Received == "off" {
 		cfg.Listens[0].NoReceived = "true"
 	}
+	cfg.DialogTimeout = fl.DT
 	w := StartRelayWorld(SimOpts{}, cfg)
 	defer w.Close()
 	// the clients' announced addresses must not collide with the universe's listeners: use ports 6000+k
@@ -102,6 +110,9 @@ func c12Exec(fl c12Flavor, nconn int, hist []c12Ev) (string, string, string) {
 		x := get(ev.K, ev.T)
 		w.Observe()
 		switch ev.Kind {
+		case "tick":
+			w.S.W.Advance(int64(ev.Code) * 1e9)
+			w.S.Run()
 		case "req":
 			if x.sent || ev.K >= nconn {
 				return "", "invalid", ""
@@ -218,7 +229,64 @@ func sortedStrs(s []string) []string {
 	return out
 }
 
+// c12CrossEntry: a service with two listens entries; the next hop was learned through the second
+// entry, the request arrives on a TCP connection of the first. The response comes back in through the
+// second entry and must still be written on the client's connection.
+func c12CrossEntry(c *Ctx, variant int) {
+	rport, recvOff := variant&1 != 0, variant&2 != 0
+	l1 := RListen{Addr: "127.0.0.1", UDP: 5060, TCP: 5062, Backends: []string{"udp://127.0.1.1:7000"}}
+	if recvOff {
+		l1.NoReceived = "true"
+	}
+	cfg := RCfg{Name: "svc.example.com", Listens: []RListen{l1, {Addr: "127.0.0.2", UDP: 5060, TCP: 5062, Backends: []string{"udp://127.0.1.3:7000"}}}}
+	w := StartRelayWorld(SimOpts{}, cfg)
+	defer w.Close()
+	c.Res.Evaluations++
+	c.Res.Executions++
+	hop := "127.0.2.1:5070"
+	pm := MsgSpec{Method: "OPTIONS", RURI: "sip:x@foreign.example.net", Vias: []string{"SIP/2.0/UDP " + hop + ";branch=z9hG4bKpre"}, From: "<sip:nh@nh.example.net>;tag=p", To: "<sip:x@nomatch.example.org>", CallID: "pre", CSeq: "1 OPTIONS"}.Build()
+	w.SendUDP(hop, "127.0.0.2:5060", pm.Render())
+	w.Observe()
+	cli, err := w.S.TCPDial("127.0.0.9:0", "127.0.0.1:5062")
+	if err != nil {
+		panic(err)
+	}
+	w.S.Run()
+	via := "SIP/2.0/TCP 127.0.0.9:6000;branch=z9hG4bKx1"
+	if rport {
+		via += ";rport"
+	}
+	m := MsgSpec{Method: "OPTIONS", RURI: "sip:bob@foreign.example.net", Vias: []string{via}, Routes: []string{"<sip:" + hop + ";lr>"}, From: "<sip:alice@ua.example.net>;tag=f1", To: "<sip:bob@nomatch.example.org>", CallID: "x1", CSeq: "1 OPTIONS"}.Build()
+	w.SendTCP(cli, m.Render())
+	obs := w.Observe()
+	if len(obs.Pkts) != 1 || obs.Pkts[0].To != hop {
+		return
+	}
+	out, err := ReadWire(obs.Pkts[0].Data)
+	if err != nil {
+		return
+	}
+	vs, _ := out.ViaStack()
+	if len(vs) != 2 {
+		return
+	}
+	c.Res.Nontrivial++
+	w.SendUDP(hop, vs[0].Host+":"+vs[0].Port, ResponseTo(out, 200, "tt").Render())
+	robs := w.Observe()
+	if len(robs.Pkts) == 1 && robs.Pkts[0].Proto == "tcp" && robs.Pkts[0].Conn == cli.Peer().ID() && len(robs.Dials) == 0 {
+		return
+	}
+	c.Violate("cross-entry-response-not-on-the-connection|two-listens-entries", "cross-entry-response-not-on-the-connection",
+		fmt.Sprintf("two listens entries (received-support of the first: %v, rport requested: %v): the request arrived on a TCP connection of entry 1 and left through entry 2's listener %s:%s (the next hop had been learned through entry 2); its response came back in through entry 2 and should be written on the client's connection; observed: %s",
+			!recvOff, rport, vs[0].Host, vs[0].Port, robs.Summary()), map[string]int{"cross_entry": variant + 1})
+}
+
 func c12Run(c *Ctx) {
+	for variant := 0; variant < 4; variant++ {
+		if c.Worker == (8+variant)%c.NWorkers {
+			c12CrossEntry(c, variant)
+		}
+	}
 	depth, nconn := 6, 2
 	if c.Thorough() {
 		depth, nconn = 7, 3
@@ -228,7 +296,7 @@ func c12Run(c *Ctx) {
 		for _, sb := range []string{"same", "different", "table-name", "unknown-name", "true-port"} {
 			for _, rp := range []bool{true, false} {
 				for _, be := range []string{"udp", "tcp"} {
-					flavors = append(flavors, c12Flavor{rc, sb, rp, be, ""})
+					flavors = append(flavors, c12Flavor{rc, sb, rp, be, "", 0})
 				}
 			}
 		}
@@ -237,16 +305,38 @@ func c12Run(c *Ctx) {
 		for _, sb := range []string{"same", "table-name"} {
 			for _, rp := range []bool{true, false} {
 				for _, be := range []string{"udp", "tcp"} {
-					flavors = append(flavors, c12Flavor{rc, sb, rp, be, "prefix"})
+					flavors = append(flavors, c12Flavor{rc, sb, rp, be, "prefix", 0})
 				}
 			}
 		}
 	}
 	// a busy period: one transaction waits for its answer while another connection completes n
 	// transactions; then the delayed 180 and 200 arrive
-	busy := 100
+	busy := 1200
 	if c.Thorough() {
-		busy = 1500
+		busy = 6000
+	}
+	// slow answers: the clock advances (2 s ... 1000 s, less than an hour in total) between the
+	// request, its 180 and its 200, under a short, a medium and no configured dialogTimeout
+	for fi, fl := range flavors {
+		if fl.Branch != "" || !c.Mine(int64(fi+3)) {
+			continue
+		}
+		for _, dt := range []int{0, 1, 30} {
+			for _, tk := range [][2]int{{2, 2}, {61, 61}, {200, 0}, {0, 200}, {1000, 1000}} {
+				f2 := fl
+				f2.DT = dt
+				h := []c12Ev{{"req", 0, 0, 0}, {"req", 1, 0, 0}, {"tick", 0, 0, tk[0]}, {"ans", 0, 0, 180}, {"tick", 0, 0, tk[1]}, {"ans", 0, 0, 200}, {"ans", 1, 0, 200}}
+				_, cl, detail := c12Exec(f2, 2, h)
+				c.Res.Executions++
+				c.Res.Evaluations++
+				c.Res.Nontrivial++
+				c.Res.Transitions += int64(len(h))
+				if cl != "" && cl != "invalid" {
+					c.Violate(cl+"|"+f2.String()+"|slow-answers", cl, detail, c12Case{f2, 2, h})
+				}
+			}
+		}
 	}
 	for fi, fl := range flavors {
 		if fl.Backend != "udp" || fl.Branch != "" || !c.Mine(int64(fi+7)) {
@@ -320,7 +410,7 @@ func c12Run(c *Ctx) {
 
 func init() {
 	addCheck(&Check{ID: "C12", Level: "model_checking",
-		Rule:   "explicit-state BFS by replay (depth 6 with 2 client connections; thorough depth 7 with 3), all connections from 127.0.0.1 to one listener, two transactions per connection with pairwise distinct branches: events {connection k sends request t, backend answers (k,t) with 180, with 200, with a second 200} in every order, crossed with 40 flavours: received-support on/off x Via sent-by {same for all connections, different, host-table name, unknown name, equal to the true peer port} x rport requested or not x UDP or TCP backends, plus 16 flavours in which every branch is a proper prefix of the next (un-padded counters); plus, per UDP-backend flavour, a busy period: one transaction waits while another connection completes 100 (thorough 1500) transactions, then its 180 and 200 arrive; oracle: every provisional and the first final response is written on the connection that carried its request, on no other, and no connection is dialled; later finals are don't-cares; schedules: see the race tier; non-trivial = history longer than one event",
+		Rule:   "explicit-state BFS by replay (depth 6 with 2 client connections; thorough depth 7 with 3), all connections from 127.0.0.1 to one listener, two transactions per connection with pairwise distinct branches: events {connection k sends request t, backend answers (k,t) with 180, with 200, with a second 200} in every order, crossed with 40 flavours: received-support on/off x Via sent-by {same for all connections, different, host-table name, unknown name, equal to the true peer port} x rport requested or not x UDP or TCP backends, plus 16 flavours in which every branch is a proper prefix of the next (un-padded counters); plus, per UDP-backend flavour, a busy period: one transaction waits while another connection completes 1200 (thorough 6000) transactions, then its 180 and 200 arrive; plus a service with two listens entries whose next hop was learned through the other entry (tracked finding); plus slow answers (clock steps of 2-1000 s between request, 180 and 200) under dialogTimeout none / 1 / 30 s for all 40 flavours; oracle: every provisional and the first final response is written on the connection that carried its request, on no other, and no connection is dialled; later finals are don't-cares; schedules: see the race tier; non-trivial = history longer than one event",
 		Assume: []string{"connections are interchangeable: histories start with connection 0 (symmetry reduction)"},
 		Run:    c12Run,
 		Finalize: func(c *Ctx, m *Result) {
@@ -349,6 +439,15 @@ func init() {
 			}
 		},
 		Replay: func(c *Ctx, raw json.RawMessage) string {
+			var ce map[string]int
+			if json.Unmarshal(raw, &ce) == nil && ce["cross_entry"] > 0 {
+				cc := &Ctx{ID: "C12x", Res: newResult(), vmap: map[string]*Violation{}, Deadline: c.Deadline, NWorkers: 1}
+				c12CrossEntry(cc, ce["cross_entry"]-1)
+				if len(cc.Res.Violations) > 0 {
+					return cc.Res.Violations[0].Clause
+				}
+				return ""
+			}
 			var cs c12Case
 			json.Unmarshal(raw, &cs)
 			_, cl, _ := c12Exec(cs.Flavor, cs.NConn, cs.Hist)
